@@ -14,6 +14,7 @@ import (
 	"encoding/binary"
 	"fmt"
 	"strconv"
+	"strings"
 
 	"wa-lang.org/wa/internal/native/abi"
 	"wa-lang.org/wa/internal/native/asm"
@@ -106,6 +107,11 @@ func main() {
 			pad, _ := strconv.ParseInt(f[3], 10, 64)
 			textFirst := f[4] == "t"
 			return asmE2E(f[0], base, int(nops), pad, textFirst)
+		case f[0] == "asmprog" && len(f) == 5:
+			base, _ := strconv.ParseInt(f[1], 10, 64)
+			return asmProg(base, f[2] == "t", f[3], f[4])
+		case f[0] == "rvprobe" && len(f) == 1:
+			return rvProbe()
 		case f[0] == "sweep" && len(f) == 3:
 			s, _ := strconv.ParseUint(f[1], 10, 64)
 			n, _ := strconv.ParseUint(f[2], 10, 64)
@@ -304,4 +310,172 @@ func asmE2E(kind string, base int64, nops int, pad int64, textFirst bool) string
 		}
 		return fmt.Sprintf("ok pc=%d sym=%d hi=%d lo=%d cpu=%d", pc, sym, hi, lo, cpuRv64(pc, hi, lo))
 	}
+}
+
+// ---- multi-reference programs -------------------------------------------------------------
+
+func dataMarker(i int) []byte {
+	return []byte{0x88, 0x77, 0x66, byte(0x50 + i), 0x44, 0x33, 0x22, 0x11}
+}
+
+// asmProg assembles a generated LoongArch program and checks nothing itself: it reports, for
+// EVERY emitted pcalau12i / addi.d pair, the pc of the pcalau12i, the final address of the
+// referenced symbol (found independently of the assembler's symbol table: data symbols by
+// their marker bytes in the linked data, text symbols by their instruction index), the two
+// instruction fields read back from the linked text, and what the CPU computes from them.
+//
+//	dataSpec: comma separated pad sizes; data symbol D<i> follows pad i  ("-" = no data symbols)
+//	textSpec: comma separated items over TWO functions (_start, then .verif.f2 after an "F" item):
+//	   n<k>      k nops
+//	   r<S>      pcalau12i %pc_hi20(S) ; addi.d %pc_lo12(S)
+//	   i<S>/<T>  pcalau12i S ; pcalau12i T ; addi.d S ; addi.d T   (interleaved pairs)
+//	   l<j>      label .verif.L<j>: (a text symbol inside the current function)
+//	   F         end _start, begin function .verif.f2
+//	   symbols S: D<i> (data), L<j> (label of the current function), F2 (.verif.f2), S0 (_start)
+//
+// Output: "ok <n> | pc sym hi lo cpu name | ..." or an error word.
+func asmProg(base int64, textFirst bool, dataSpec, textSpec string) string {
+	var sb bytes.Buffer
+	var pads []int
+	if dataSpec != "-" {
+		for _, x := range strings.Split(dataSpec, ",") {
+			n, err := strconv.Atoi(x)
+			if err != nil {
+				return "bad-op"
+			}
+			pads = append(pads, n)
+		}
+	}
+	data := func() {
+		if len(pads) == 0 {
+			return
+		}
+		sb.WriteString(".section .data\n.align 3\n")
+		for i, pad := range pads {
+			if pad > 0 {
+				fmt.Fprintf(&sb, ".verif.pad%d: .ascii \"%s\"\n", i, bytes.Repeat([]byte{'x'}, pad))
+			}
+			m := dataMarker(i)
+			fmt.Fprintf(&sb, ".verif.D%d: .quad 0x%016x\n", i, binary.LittleEndian.Uint64(m))
+		}
+	}
+	symName := func(s string) string {
+		switch {
+		case s == "F2":
+			return ".verif.f2"
+		case s == "S0":
+			return "_start"
+		}
+		return ".verif." + s
+	}
+	type ref struct {
+		hiIdx, loIdx int // instruction indices of the pcalau12i and of its addi.d
+		sym          string
+	}
+	var refs []ref
+	labelIdx := map[string]int{"S0": 0}
+	idx := 0
+	text := func() {
+		sb.WriteString(".section .text\n.globl _start\n_start:\n")
+		for _, it := range strings.Split(textSpec, ",") {
+			switch {
+			case it == "F":
+				sb.WriteString("    jirl $zero, $ra, 0\n")
+				idx++
+				sb.WriteString(".section .text\n.globl .verif.f2\n.verif.f2:\n")
+				labelIdx["F2"] = idx
+			case it[0] == 'n':
+				k, _ := strconv.Atoi(it[1:])
+				for i := 0; i < k; i++ {
+					sb.WriteString("    addi.d $zero, $zero, 0\n")
+				}
+				idx += k
+			case it[0] == 'l':
+				fmt.Fprintf(&sb, ".verif.L%s:\n", it[1:])
+				labelIdx["L"+it[1:]] = idx
+			case it[0] == 'r':
+				s := it[1:]
+				fmt.Fprintf(&sb, "    pcalau12i $t0, %%pc_hi20(%s)\n    addi.d $t0, $t0, %%pc_lo12(%s)\n", symName(s), symName(s))
+				refs = append(refs, ref{idx, idx + 1, s})
+				idx += 2
+			case it[0] == 'i':
+				ab := strings.SplitN(it[1:], "/", 2)
+				if len(ab) != 2 {
+					return
+				}
+				fmt.Fprintf(&sb, "    pcalau12i $t0, %%pc_hi20(%s)\n    pcalau12i $t1, %%pc_hi20(%s)\n", symName(ab[0]), symName(ab[1]))
+				fmt.Fprintf(&sb, "    addi.d $t0, $t0, %%pc_lo12(%s)\n    addi.d $t1, $t1, %%pc_lo12(%s)\n", symName(ab[0]), symName(ab[1]))
+				refs = append(refs, ref{idx, idx + 2, ab[0]}, ref{idx + 1, idx + 3, ab[1]})
+				idx += 4
+			}
+		}
+		sb.WriteString("    jirl $zero, $ra, 0\n")
+		idx++
+	}
+	if textFirst {
+		text()
+		data()
+	} else {
+		data()
+		text()
+	}
+	opt := &abi.LinkOptions{CPU: abi.LOONG64, DRAMBase: base, DRAMSize: 64 << 20}
+	prog, err := asm.AssembleFile("verif_c18.wa.s", sb.Bytes(), opt)
+	if err != nil {
+		return "asm-error " + strings.ReplaceAll(err.Error(), "\n", " ")
+	}
+	hdr := -1
+	for i := 0; i+4 <= len(prog.TextData); i += 4 {
+		if binary.LittleEndian.Uint32(prog.TextData[i:]) != 0 {
+			hdr = i
+			break
+		}
+	}
+	if hdr < 0 || hdr+4*idx > len(prog.TextData) {
+		return fmt.Sprintf("short-text hdr=%d insts=%d len=%d", hdr, idx, len(prog.TextData))
+	}
+	addrOf := func(s string) (int64, bool) {
+		if s[0] == 'D' {
+			i, _ := strconv.Atoi(s[1:])
+			k := bytes.Index(prog.DataData, dataMarker(i))
+			if k < 0 {
+				return 0, false
+			}
+			return prog.DataAddr + int64(k), true
+		}
+		k, ok := labelIdx[s]
+		return prog.TextAddr + int64(hdr) + 4*int64(k), ok
+	}
+	out := []string{fmt.Sprintf("ok %d", len(refs))}
+	for _, r := range refs {
+		w0 := binary.LittleEndian.Uint32(prog.TextData[hdr+4*r.hiIdx:])
+		w1 := binary.LittleEndian.Uint32(prog.TextData[hdr+4*r.loIdx:])
+		if w0>>25 != 0b0001101 || w1>>22 != 0b0000001011 {
+			return fmt.Sprintf("unexpected-words %08x %08x at %d", w0, w1, r.hiIdx)
+		}
+		sym, ok := addrOf(r.sym)
+		if !ok {
+			return "no-symbol " + r.sym
+		}
+		pc := prog.TextAddr + int64(hdr) + 4*int64(r.hiIdx)
+		hi := int32(w0 >> 5 & 0xFFFFF)
+		lo := int32(w1 >> 10 & 0xFFF)
+		out = append(out, fmt.Sprintf("%d %d %d %d %d %s", pc, sym, hi, lo, cpuLa64(pc, hi, lo), r.sym))
+	}
+	return strings.Join(out, " | ")
+}
+
+// rvProbe reports whether the RISC-V %pcrel_hi/%pcrel_lo call site can be reached through the
+// assembler: "unreachable <error>" on this tree (abi.BuiltinFn.IsValid rejects the modifiers),
+// otherwise "reachable".
+func rvProbe() string {
+	src := ".section .data\n.align 3\n.verif.D0: .quad 1\n.section .text\n.globl _start\n_start:\n.verif.L0:\n" +
+		"    auipc t0, %pcrel_hi(.verif.D0)\n    addi t0, t0, %pcrel_lo(.verif.L0)\n    jalr zero, 0(ra)\n"
+	for _, cpu := range []abi.CPUType{abi.RISCV64, abi.RISCV32} {
+		opt := &abi.LinkOptions{CPU: cpu, DRAMBase: 0x80000000, DRAMSize: 64 << 20}
+		if _, err := asm.AssembleFile("verif_c18_rv.wa.s", []byte(src), opt); err != nil {
+			return "unreachable " + strings.ReplaceAll(err.Error(), "\n", " ")
+		}
+	}
+	return "reachable"
 }
